@@ -86,7 +86,7 @@ def run_property(pid, tier="quick", seed=0, jobs=None, mutate=None):
     targets = mod.targets(eng)
     opts = {"tier": tier, "seed": seed, "timeout_ms": 10000 if tier == "quick" else 60000, "both": tier == "thorough"}
     jobs = jobs or min(16, max(1, len(targets)))
-    only = os.environ.get("PYVC_ONLY")          # development aid: run a subset of targets (never used by registered commands)
+    only = os.environ.get("PYVC_ONLY")          # run a subset of targets: development aid, and the first pass of the thorough tier's mutant self-check (pyvc/mutants.py)
     if only:
         targets = [t for t in targets if any(x in t.name for x in only.split(","))]
     work = [(pid, t.name, opts) for t in targets]
